@@ -208,6 +208,16 @@ def run_case(acc, seed, idx):
         executed = st in ('ResetComplete', 'LossyResetWarning')
         if not executed:
             acc.count('c15_command_not_reached:' + st)
+            if not fault:
+                # nothing was injected and the command comment is the newest
+                # comment of an open, handled pull request: it has to be
+                # carried out (both commands delete the integration data,
+                # "the next evaluation rebuilds the integration branches")
+                acc.violation(
+                    'reset-command-not-executed',
+                    '%s requested on PR #%d, evaluation ended %s: the '
+                    'command was not carried out' % (command, p['id'], st),
+                    wit)
         if strict:
             acc.count('c15_resets_with_qualifying_work')
         elif not manual:
